@@ -4,10 +4,12 @@ from . import querycheck
 
 def run(r):
     querycheck.run(r, "plain", "BW.Props.C03",
-                   "proof (partial): the reference semantics (solutions = clause-by-clause join of the matches on a scan) "
-                   "respects constants, predicate kinds and closed time windows, contains every compatible match and nothing "
-                   "else, is monotone in the data; the planner model joins only rows agreeing on shared bindings "
-                   "(Props/C03.lean). NOT proved: equality of the planner's table with the solutions for every pattern — tied by "
+                   "proof: (Props/C03.lean) the planner model's table is the set of solutions of the reference semantics for every "
+                   "pattern (select_pattern_eq_solutions: fetch = clause match on a scan, every strategy of processClause = one "
+                   "join step, loop invariant), as sets of rows up to anchor zone, under stated hypotheses on statement and data "
+                   "(index invariant, distinct UUID pre-images of the values in play, parser-shaped clauses, first clause mandatory "
+                   "and extracting, no FILTER, no limit push-down); the reference respects constants, kinds and closed windows. "
+                   "Multiplicities and the hypotheses' complement (and the model's tie to the code) are carried by "
                    "the three-way correspondence: generated stores (1-3 graphs, 3-20 triples over a vocabulary with immutable and "
                    "temporal predicates sharing ids, all literal kinds, reified predicates, the same instant in two zones) and "
                    "SELECTs of 1-4 clauses built from stored triples (so that joins are non-empty) plus random clauses, "
